@@ -3,6 +3,7 @@ import XzVerif.Spec.DictCap
 import XzVerif.Model.Chunk
 import XzVerif.Model.Xz
 import XzVerif.Model.Lzma1
+import XzVerif.Model.ReadLoop
 /-
   driver — line protocol around the executable definitions of Spec and Model.
   One request per line on stdin, one reply line on stdout.  Core-only, so it links.
@@ -175,6 +176,10 @@ def handle (line : String) : String :=
       let size := if sz = "-" then none else sz.toNat?
       hex (Lzma1.encode { props := p, dictCap := dc, size := size } ops.toArray (boolOf mk))
     | _, _, _ => "bad-op"
+  -- readseq <content length> <sizes>... → per-call (n,eof) of the reader contract model
+  | "readseq" :: l :: sizes => match l.toNat?, sizes.mapM String.toNat? with
+    | some l, some sizes => " ".intercalate ((ReadLoop.readSeqLens l sizes).map (fun (n, e) => s!"{n}:{if e then 1 else 0}"))
+    | _, _ => "bad-op"
   | ["lzmaops", h] =>
     let r := Lzma1.read 0 (unhex h)
     " ".intercalate (r.ops.toList.map opStr)
